@@ -252,6 +252,9 @@ def finBlock (s : St) (f : Nat) (t : Task) (v : Bytes) (ev : List Name) : Option
       else
         some (setT { s1 with entries := delE s1.entries t.name } f t (.complete (.ok v)))
 
+/-- bytes of a file after writing `d` at offset 0 -/
+def overwrite (cur d : Bytes) : Bytes := d ++ cur.drop d.length
+
 def tstep (s : St) (f : Nat) (t : Task) (ev : List Name) : Option St :=
   match t.pc with
   | .read =>
@@ -261,7 +264,11 @@ def tstep (s : St) (f : Nat) (t : Task) (ev : List Name) : Option St :=
   | .trunc => some (setT { s with disk := dset s.disk t.name [] } f t .write)
   | .write =>
     match t.wr with
-    | some (d, fs) => some (setT { s with disk := dset s.disk t.name d } f t (if fs then .fsync else .fin d))
+    | some (d, fs) =>
+      -- f.write on a descriptor at offset 0: overwrites the first len(d) bytes of whatever the
+      -- file holds now (empty after this task's own truncate unless another writer interleaved)
+      some (setT { s with disk := dset s.disk t.name (overwrite ((dget s.disk t.name).getD []) d) } f t
+              (if fs then .fsync else .fin d))
     | none => none
   | .fsync =>
     match t.wr with
